@@ -70,6 +70,11 @@ Definition newmark_A (x : Vec) : Vec :=
 Definition newmark_lhs (x : Vec) : Vec :=
   vadd (vadd (K (G newmark_ev_ut x)) (C (G newmark_ev_vt x))) (M (G newmark_ev_at x)).
 
+(* the matrix assembled in _Solver_Apply_Dirichlet (generated newmark_sysop) is this weighted sum *)
+Theorem newmark_sysop_is_weighted_sum : forall x y i,
+  (G newmark_sysop y) x i = newmark_A x i.
+Proof. unfold newmark_A; vf. Qed.
+
 (* row i of the system minus row i of the right-hand side of _Solver_Apply_Neumann
    = residual of the equation of motion at dof i *)
 Theorem newmark_eom_identity : forall x i,
@@ -112,6 +117,7 @@ Print Assumptions newmark_update_rule.
 Print Assumptions newmark_update_displacement.
 Print Assumptions newmark_eval_consistent.
 Print Assumptions newmark_coefs_are_derivatives.
+Print Assumptions newmark_sysop_is_weighted_sum.
 Print Assumptions newmark_eom_identity.
 Print Assumptions newmark_discrete_eom.
 Print Assumptions newmark_newton_consistent.
